@@ -1,6 +1,12 @@
 //! Demonstration for the C19/C18 finding "circular reference between blocked edges".
+//! Place as tests/parallel/cycle_nested_deep_conditional_concurrent.rs and add
+//! `mod cycle_nested_deep_conditional_concurrent;` to tests/parallel/main.rs; run
+//! `cargo test --features shuttle --test parallel cycle_nested_deep_conditional_concurrent`
+//! (deterministic: fixed PCT seed; fails on c12307b and on the original snapshot ca4df55, passes
+//! with checks/notes/C19-circular-blocked-edges-fix.patch).
 //!
-//! The SAME queries as `cycle_nested_deep_conditional.rs`, but the four threads really run
+//! The queries of `cycle_nested_deep_conditional.rs` (with `c` also calling `a` in its later
+//! iterations, as /verif/harness-proto's workload `deep_cond`), but the four threads really run
 //! concurrently: the original test lets t1 finish `query_a` before it signals the other three
 //! (`db_t1.signal(1)` comes after `query_a(&db_t1)` returned), so it never exercises a transfer of
 //! `a`'s lock while other threads wait inside the cycle.
@@ -88,7 +94,7 @@ fn the_test() {
         shuttle::Runner::new(scheduler, config).run(one_round);
     }
     #[cfg(not(feature = "shuttle"))]
-    for _ in 0..100_000 {
+    for _ in 0..20_000 {
         one_round();
     }
 }
